@@ -500,6 +500,11 @@ func TestC13Connector(t *testing.T) {
 	run(t, "connector")
 }
 
+func TestC13ConnectorUpdate(t *testing.T) {
+	ev.Checks(300, 1500)
+	run(t, "connector-update")
+}
+
 // TestC13PartialBeyondGrammar: offsets and lengths outside RFC 3501's 32-bit number (candidate F-C13 of DESIGN.md §6:
 // begin+count overflows in itemBodyLiteral.WithPartial). Such a command is not valid IMAP, so the value that comes
 // back is not judged; what is judged is that the server neither crashes nor breaks the framing of its response, and
